@@ -49,7 +49,10 @@ void QXmppRemoteMethod::gotResult(const QXmppRpcResponseIq &iq)
         m_result.hasError = false;
         // FIXME: we don't handle multiple responses
         const auto values = iq.values();
-        m_result.result = values.first();
+        // a response without <param/> carries no value
+        if (!values.isEmpty()) {
+            m_result.result = values.first();
+        }
         Q_EMIT callDone();
     }
 }
